@@ -121,7 +121,7 @@ fn c11_case(c: &EngCase, st: &mut Stats, dense: u64) -> Result<(), String> {
     ks.dedup();
     let mut first_some: Option<u64> = None;
     for &k in &ks {
-        let ((mv, _score), _depth, _polls) = run_search(&s.board, &s.tf, k, false).map_err(|e| format!("C11 {}", search_err(e, &fen, k)))?;
+        let ((mv, _score), _depth, _polls, expired) = run_search(&s.board, &s.tf, k, false).map_err(|e| format!("C11 {}", search_err(e, &fen, k)))?;
         match mv {
             Some(m) => {
                 let m = from_cm(m);
@@ -133,6 +133,11 @@ fn c11_case(c: &EngCase, st: &mut Stats, dense: u64) -> Result<(), String> {
                 }
             }
             None => {
+                if !expired && !s.legal.is_empty() {
+                    // the call returned although the limit never expired: the deepening loop ended by
+                    // itself, so at least the first pass finished before the limit
+                    return Err(format!("C11 search of `{fen}` returned by itself (the limit, set to expire at poll {k}, never expired) yet returned no move although legal moves exist"));
+                }
                 if let Some(f) = first_some {
                     return Err(format!("C11 search of `{fen}`: a move is returned when the limit expires at poll {f} but none when it expires later, at poll {k}"));
                 }
@@ -158,7 +163,7 @@ fn c11_case(c: &EngCase, st: &mut Stats, dense: u64) -> Result<(), String> {
         }
     }
     // with no limit at all (cap), legal moves exist => a move must come back unless the cap hit first
-    if !s.legal.is_empty() && prof.result.0.is_none() && s1.is_some() && !prof.observer_missing {
+    if !s.legal.is_empty() && prof.result.0.is_none() && ((s1.is_some() && !prof.observer_missing) || prof.self_terminated) {
         return Err(format!("C11 search of `{fen}` completed its first pass but returned no move"));
     }
     if s.legal.is_empty() {
@@ -182,6 +187,7 @@ pub const C11: CheckDef = CheckDef {
     id: "C11",
     worker: |ctx| {
         let dense = ctx.tier.pick(300, 800);
+        ctx.max_shrink.set(150);
         run_proptest(ctx, 11, ctx.share(ctx.tier.pick(2_000, 30_000)), eng_strategy(22, 40), eng_json, move |c, st| c11_case(c, st, dense))
     },
     replay: |v| c11_case(&eng_from(v)?, &mut Stats::new(), 1500),
@@ -227,6 +233,48 @@ fn c12_case(c: &EngCase, st: &mut Stats) -> Result<(), String> {
         s.pos.half = 99;
         s.board = to_board(&s.pos)?;
     }
+    // harvest: descendants (<= 2 plies) in which the side to move has exactly ONE legal move,
+    // preferring those where that move mates -- a shape random generation practically never hits
+    let mut forced_mate: Vec<Pos> = vec![];
+    let mut forced_other: Vec<Pos> = vec![];
+    if s.pos.men() <= 14 {
+        let mut budget = 1500;
+        'outer: for m1 in &s.legal {
+            let q1 = s.pos.apply(*m1);
+            let l1 = q1.legal();
+            for q in std::iter::once(q1.clone()).chain(l1.iter().map(|m2| q1.apply(*m2))) {
+                budget -= 1;
+                if budget == 0 {
+                    break 'outer;
+                }
+                let l = q.legal();
+                if l.len() == 1 {
+                    let n = q.apply(l[0]);
+                    if n.in_check() && n.legal().is_empty() {
+                        if forced_mate.len() < 3 {
+                            forced_mate.push(q);
+                        }
+                    } else if forced_other.len() < 1 {
+                        forced_other.push(q);
+                    }
+                }
+            }
+        }
+    }
+    for (q, cls) in forced_mate.into_iter().map(|q| (q, "harvested: single legal move, and it mates")).chain(forced_other.into_iter().map(|q| (q, "harvested: single legal move, not mate"))) {
+        let mut q = q;
+        if q.half >= 100 {
+            q.half = 99;
+        }
+        let sub = Setup { board: to_board(&q)?, legal: q.legal(), pos: q, tf: ThreeFold::new() };
+        st.class(cls);
+        c12_eval(sub, false, st)?;
+    }
+    c12_eval(s, c.history, st)
+}
+
+fn c12_eval(mut s: Setup, history: bool, st: &mut Stats) -> Result<(), String> {
+    let c_history = history;
     let fen = s.pos.fen();
     if s.legal.is_empty() {
         return Ok(());
@@ -234,7 +282,7 @@ fn c12_case(c: &EngCase, st: &mut Stats) -> Result<(), String> {
     let mates = mating_moves(&s.pos, &s.legal);
     // optionally make the position after a mating move "already seen twice": mate must
     // still win over the repetition draw
-    if c.history && !mates.is_empty() {
+    if c_history && !mates.is_empty() {
         let after = to_board(&s.pos.apply(mates[0]))?;
         let _ = s.tf.add(after);
         let _ = s.tf.add(after);
@@ -257,7 +305,7 @@ fn c12_case(c: &EngCase, st: &mut Stats) -> Result<(), String> {
     }
     limits.push(CAP);
     for &k in &limits {
-        let ((mv, score), depth, _) = if k == CAP { (prof.result, prof.max_depth, 0) } else { run_search(&s.board, &s.tf, k, false).map_err(|e| format!("C12 {}", search_err(e, &fen, k)))? };
+        let ((mv, score), depth, _, _) = if k == CAP { (prof.result, prof.max_depth, 0, false) } else { run_search(&s.board, &s.tf, k, false).map_err(|e| format!("C12 {}", search_err(e, &fen, k)))? };
         let is_m1 = score_eq(score, want);
         if !mates.is_empty() {
             if k == CAP && prof.hit_cap && s1.is_none() {
@@ -326,7 +374,7 @@ fn c12_strategy() -> impl Strategy<Value = EngCase> {
 
 pub const C12: CheckDef = CheckDef {
     id: "C12",
-    worker: |ctx| run_proptest(ctx, 12, ctx.share(ctx.tier.pick(40_000, 1_500_000)), c12_strategy(), eng_json, c12_case),
+    worker: |ctx| { ctx.max_shrink.set(400); run_proptest(ctx, 12, ctx.share(ctx.tier.pick(40_000, 1_500_000)), c12_strategy(), eng_json, c12_case) },
     replay: |v| c12_case(&eng_from(v)?, &mut Stats::new()),
     rule: "positions from mating-net constructors (lone king on an edge vs king + 1-3 heavy/minor pieces + scattered material), sparse synthetic placements and general roots, followed by playouts; half-move clock forced to 96..100 in a third of the cases; optionally the mated position pre-filled twice in the repetition table. The reference enumerates the mating moves. With the limit expiring at s_1, s_1+1, s_1+7, s_2, s_2+1 and never: positions WITH a mate in one must return a mating move and the mover's MateIn(1) score; positions WITHOUT must never report the mover's MateIn(1); a MateIn(1) score always comes with a move that mates. Non-trivial = position with a mate in one, or with a check that is not mate; distinct by position key.",
     assumptions: &["oracle: refchess (mating move = legal move after which the opponent is in check and has no legal move)", "pass boundaries from the 'start depth' event as in C11"],
@@ -362,8 +410,8 @@ fn c13_case(c: &EngCase, st: &mut Stats) -> Result<(), String> {
     // depth d is complete in both iff both have a start for pass d+1
     for d in 0..depths.saturating_sub(1) {
         let (ka, kb) = (pa.starts[d + 1], pb.starts[d + 1]);
-        let ((_, sa), da, _) = run_search(&s.board, &tf, ka, false).map_err(|e| format!("C13 {}", search_err(e, &fen, ka)))?;
-        let ((_, sb), db, _) = run_search(&mb, &tf, kb, false).map_err(|e| format!("C13 {}", search_err(e, &mp.fen(), kb)))?;
+        let ((_, sa), da, _, _) = run_search(&s.board, &tf, ka, false).map_err(|e| format!("C13 {}", search_err(e, &fen, ka)))?;
+        let ((_, sb), db, _, _) = run_search(&mb, &tf, kb, false).map_err(|e| format!("C13 {}", search_err(e, &mp.fen(), kb)))?;
         if da as usize != d || db as usize != d {
             // a mate score ends the deepening early; compare whatever both committed at the same depth
             if da != db {
@@ -392,7 +440,7 @@ fn c13_case(c: &EngCase, st: &mut Stats) -> Result<(), String> {
 
 pub const C13: CheckDef = CheckDef {
     id: "C13",
-    worker: |ctx| run_proptest(ctx, 13, ctx.share(ctx.tier.pick(6_000, 200_000)), eng_strategy(18, 40), eng_json, c13_case),
+    worker: |ctx| { ctx.max_shrink.set(300); run_proptest(ctx, 13, ctx.share(ctx.tier.pick(6_000, 200_000)), eng_strategy(18, 40), eng_json, c13_case) },
     replay: |v| c13_case(&eng_from(v)?, &mut Stats::new()),
     rule: "metamorphic: position P (<= 20 men, no promotion move at the root, empty repetition history, Engine::default()) and mirror(P) (colours swapped, ranks flipped, rights swapped, same marker file) are each searched under their OWN pass boundaries; for every depth d both complete within the poll cap, the score committed with the limit at s_{d+1} must satisfy score(mirror) = negate(score(P)). Moves are not compared (tie-breaking may differ). evaluations = depth comparisons. Non-trivial = depth >= 1 or a non-zero score; distinct by (position key, depth).",
     assumptions: &["scores only: square iteration order is not mirror-invariant, so the chosen move may legitimately differ between equal-scoring moves", "pass boundaries from the 'start depth' event as in C11"],
